@@ -28,6 +28,9 @@ fn push_repeated(macro_rec: &mut String, repeat_rec: &str, repeat_number: i32) {
     }
 }
 
+/// Sixel images are decoded in threads of their own, this many may wait for the next poll.
+const MAX_PENDING_SIXEL_DECODES: usize = 32;
+
 impl Parser {
     pub(super) fn execute_dcs(&mut self, buf: &mut Buffer, caret: &Caret) -> EngineResult<CallbackAction> {
         if self.parse_string.starts_with("CTerm:Font:") {
@@ -77,7 +80,11 @@ impl Parser {
             let dcs_string = std::mem::take(&mut self.parse_string);
             #[cfg(icy_engine_verif)]
             let dcs_string = crate::verif_hooks::GatedString::new(dcs_string);
-            let handle = thread::spawn(move || Sixel::parse_from(p, 1, vertical_scale, bg_color, &dcs_string[i + 1..]));
+            // nothing else collects the decode threads while characters keep coming: bound their number
+            if buf.sixel_threads.len() >= MAX_PENDING_SIXEL_DECODES {
+                let _ = buf.collect_sixel_threads(MAX_PENDING_SIXEL_DECODES - 1);
+            }
+            let handle = thread::Builder::new().spawn(move || Sixel::parse_from(p, 1, vertical_scale, bg_color, &dcs_string[i + 1..]))?;
 
             buf.sixel_threads.push_back(handle);
 
